@@ -164,10 +164,10 @@ func randomMesh(r *hx.Rand, big bool) MeshNet {
 }
 
 func gen(r *hx.Rand, tier string) []json.RawMessage {
-	nConn, nMesh := 170, 60
+	nConn, nMesh := 110, 40
 	maxSw, maxDev := 7, 5
 	if tier == "thorough" {
-		nConn, nMesh = 1600, 500
+		nConn, nMesh = 1000, 300
 		maxSw, maxDev = 9, 6
 	}
 	var out []json.RawMessage
